@@ -48,6 +48,12 @@ hint["j"] = ("Prefer a COMPENSATED change: one that is applied consistently on B
              "other and round trips still close, while the behaviour no longer matches what the property and the repository documentation "
              "(README instruction tables, hardware description) require. The change should need a specific operand value, state or sequence to "
              "show. Avoid the most obvious arithmetic or table site.")
+hint["k"] = ("Make it a REFACTORING SLIP: replace a hand-written expression or loop by an 'equivalent' helper, library call or idiom that "
+             "differs only on an edge - Python ints vs masked machine words, signed vs unsigned shifts or comparisons, // vs >>, % on negative "
+             "numbers, sorted vs insertion order, dict / set iteration order, min/max clamps, off-by-one in a range or slice, "
+             "saturating vs wrapping vs checked arithmetic in Rust, u8/u16/u32 `as` casts that truncate, Option::unwrap_or defaults, "
+             "an early return that skips a side effect, two statements merged into one. The diff should read like a clean-up commit "
+             "('simplify', 'use helper', 'clippy'). Pick a site that is NOT the first one anybody would look at for this property.")
 hint = hint[variant]
 print(f"""You are helping test a verification framework for the repository mblsha/binja-esr (a Binary Ninja plugin + emulator for the Sharp SC62015 CPU: decoder/encoder, LLIL lifter, assembler, PC-E500 machine emulator in Python under pce500/, and a Rust core under sc62015/core).
 
